@@ -293,4 +293,14 @@ theorem inline_const_output_dangling_witness :
       = some ["sig g(x|)", "L1 return k"] := by
   decide +kernel
 
+/-- C13-ATTR-INPUT-CLASH: in a FunctionProto the inputs are translated before the attribute parameters are
+registered, so an input whose Python name equals an attribute parameter appears twice in the signature
+(`def af_w(v2, v2: float)`: not valid Python) while the body reads the input as `v2_0`. -/
+theorem attr_input_clash_witness :
+    (exportFunction ⟨true, false, false, false⟩ 2
+      ⟨"af_w", "this", ["X"], ["y"], ["v2"], ["y", "X"], [("", 18)],
+       [.mk "Elu" "" "" ["X"] ["y"] [("alpha", .ref "v2")]]⟩).toOption
+      = some ["sig af_w(v2|v2)", "L1 call v1 = opset18.Elu(v2_0|alpha=@v2)", "L1 return v1"] := by
+  decide +kernel
+
 end OV.Props.C13
